@@ -77,3 +77,11 @@ register(Contract(
     },
     properties=['C03', 'C05'],
 ))
+
+# in-place writes of a region block (frozen dataclass, written through object.__setattr__)
+for _m, _f, _p in (('replace_header', 'header', 'new_header'), ('replace_exiting', 'exiting', 'new_exiting')):
+    register(Contract(
+        qual=BB + ':RegionBlock.' + _m, params={'self': 'block', _p: 'name'}, modifies=['self'],
+        ensures={'def': 'self == replace(old.self, %s=%s)' % (_f, _p)},
+        properties=['C04'], gen='region_field',
+    ))
